@@ -363,6 +363,22 @@ def run_pyjob(job):
     return res
 
 
+def parse_cbmc_text(out):
+    res, fn, fl = [], None, None
+    if "** Results:" not in out:
+        return None
+    for line in out.split("** Results:", 1)[1].splitlines():
+        m = re.match(r"^(\S+) function (\S+)$", line)
+        if m:
+            fl, fn = m.group(1), m.group(2)
+            continue
+        m = re.match(r"^\[(.+?)\] (?:line (\d+) )?(.*): (SUCCESS|FAILURE|UNKNOWN|ERROR)$", line)
+        if m:
+            res.append({"property": m.group(1), "description": m.group(3), "status": m.group(4),
+                        "sourceLocation": {"line": m.group(2), "file": fl, "function": fn}})
+    return res or None
+
+
 def run_job(job):
     if isinstance(job, PyJob):
         return run_pyjob(job)
@@ -382,6 +398,18 @@ def run_job(job):
         if to:
             raise Undecided("timeout after %ds" % (job.timeout * TIME_SCALE))
         results, status, msgs = parse_cbmc(out)
+        if results is None and "Invariant check failed" in (out + err) and not to:
+            # cbmc 6.11 sometimes aborts while *building the counterexample trace* of the (expected) canary failure in
+            # --json-ui mode (boolbv_get.cpp:41).  The verdicts themselves are available in plain-text mode, which
+            # builds no trace: rerun and parse the result lines.
+            cmd2 = [c for c in cmd if c != "--json-ui"]
+            rc, out2, err2, secs2, to = sh(cmd2, timeout=job.timeout * TIME_SCALE, mem_kb=MEM_KB, cwd=workdir, env={"TMPDIR": workdir})
+            res["solver_secs"] = round(secs + secs2, 2)
+            res["note"] = (res.get("note") or "") + " [verdicts parsed from cbmc text output: json-ui trace builder aborted]"
+            if to:
+                raise Undecided("timeout after %ds" % (job.timeout * TIME_SCALE))
+            results = parse_cbmc_text(out2)
+            msgs = [l for l in out2.splitlines() if "ignoring" in l]
         if results is None:
             raise Undecided("cbmc gave no result list (rc=%s): %s" % (rc, (" | ".join(msgs) or err or out)[-1200:]))
         if any("ignoring" in m for m in msgs):
